@@ -443,7 +443,7 @@ Qed.
 Definition fixed (r : record) : list (list N * value) :=
   [(k_time, VTime (time_txt r)); (k_level, VTime (level_text (lvl r)))]
   ++ (match src r with
-      | Some (file, line) => [(k_source, VGroup [(k_file, VStr file); (k_line, VInt line)])]
+      | Some (file, line) => [(k_source, VGroup [(k_file, VStr (source_file file)); (k_line, VInt line)])]
       | None => []
       end)
   ++ [(k_msg, VStr (msg r))].
@@ -515,4 +515,51 @@ Proof.
     replace (L - length exp + length exp)%nat with L in Hp by lia.
     cbn [pstate] in Hp. rewrite Hp; [|lia|intros _; apply dh_cons; auto].
     rewrite pstate_close. cbn [bindp skip_ws]. rewrite app_nil_r. reflexivity.
+Qed.
+
+(** ** what appendJsonSource's cut yields *)
+Lemma scan_back_pass : forall y R seen first,
+  R <> [] -> (forall c, In c y -> c <> 47) ->
+  scan_back (y ++ R) seen first = scan_back R (rev y ++ seen) first.
+Proof.
+  induction y as [|c y IH]; intros R seen first HR Hy; [reflexivity|].
+  cbn [app scan_back]. destruct (y ++ R) as [|d u] eqn:E.
+  { destruct y; [cbn in E; contradiction|discriminate E]. }
+  assert (c =? 47 = false) as -> by (apply N.eqb_neq, Hy; left; reflexivity).
+  rewrite <- E. rewrite IH; [|exact HR|intros x Hx; apply Hy; right; exact Hx].
+  cbn [rev]. rewrite <- app_assoc. reflexivity.
+Qed.
+
+Theorem source_file_last_two p a b :
+  (forall c, In c a -> c <> 47) -> (forall c, In c b -> c <> 47) ->
+  source_file (p ++ 47 :: a ++ 47 :: b) = a ++ 47 :: b.
+Proof.
+  intros Ha Hb. unfold source_file.
+  replace (rev (p ++ 47 :: a ++ 47 :: b)) with (rev b ++ 47 :: rev a ++ 47 :: rev p).
+  2:{ rewrite rev_app_distr. cbn [rev]. rewrite rev_app_distr. cbn [rev]. repeat rewrite <- app_assoc. reflexivity. }
+  rewrite scan_back_pass; [|discriminate|intros c Hc; apply Hb, in_rev; exact Hc].
+  rewrite rev_involutive, app_nil_r.
+  cbn [scan_back]. destruct (rev a ++ 47 :: rev p) as [|d u] eqn:E; [destruct (rev a); discriminate E|].
+  change (47 =? 47) with true. cbv iota. rewrite <- E.
+  rewrite scan_back_pass; [|discriminate|intros c Hc; apply Ha, in_rev; exact Hc].
+  rewrite rev_involutive. cbn [scan_back]. destruct (rev p); reflexivity.
+Qed.
+
+(** fewer than two '/' after the first byte: the first byte is dropped, whatever it is *)
+Theorem source_file_short c file :
+  (forall a b, file <> a ++ 47 :: b) \/ (exists a b, file = a ++ 47 :: b /\ (forall x, In x a -> x <> 47) /\ (forall x, In x b -> x <> 47)) ->
+  source_file (c :: file) = file.
+Proof.
+  unfold source_file. cbn [rev]. intros [Hno|(a & b & -> & Ha & Hb)].
+  - assert (Hf : forall x, In x (rev file) -> x <> 47).
+    { intros x Hx ->. apply in_rev in Hx. apply in_split in Hx as (l1 & l2 & E). exact (Hno _ _ E). }
+    rewrite scan_back_pass; [|discriminate|exact Hf]. rewrite rev_involutive, app_nil_r. reflexivity.
+  - replace (rev (a ++ 47 :: b) ++ [c]) with (rev b ++ 47 :: rev a ++ [c]).
+    2:{ rewrite rev_app_distr. cbn [rev]. repeat rewrite <- app_assoc. reflexivity. }
+    rewrite scan_back_pass; [|discriminate|intros x Hx; apply Hb, in_rev; exact Hx].
+    rewrite rev_involutive, app_nil_r. cbn [scan_back].
+    destruct (rev a ++ [c]) as [|d u] eqn:E; [destruct (rev a); discriminate E|].
+    change (47 =? 47) with true. cbv iota. rewrite <- E.
+    rewrite scan_back_pass; [|discriminate|intros x Hx; apply Ha, in_rev; exact Hx].
+    rewrite rev_involutive. reflexivity.
 Qed.
